@@ -186,9 +186,12 @@ package dockerlog
 //@ iface github.com/docker/docker/client.APIClient.ContainerList
 //@   modifies nothing
 
+// Every label of the container becomes a resource attribute under the same name and value.
 //@ func (containerLabels).AsResource
-//@   trusted
+//@   capture ps = call(attrs.AsMap().PutStr, 0)
 //@   modifies nothing
+//@   loop 0 modifies nothing
+//@   loop 0 body_ensures[label-becomes-attribute] ps_called && ps_a0 == key && ps_a1 == value
 
 //@ func (*Querier).openLog
 //@   capture cl = call(q.client.ContainerLogs, 0)
